@@ -1,5 +1,5 @@
 import RedoModel.LogFollow
-/- `logfollow-replay <events>`: `;`-separated `lo | cr,<ino> | ul | en,<0|1> | op,<ino> | ck,<0|1> | st` — the observable
+/- `logfollow-replay <events>`: `;`-separated `lo | cr,<ino> | ul | en,<0|1> | op,<ino> | ck,<0|1> | ef | st` — the observable
 events of one follower session on one target together with that target's builder events, in trace order.
 Answer `ok phase=<p> following=<0|1>` or `flag <name> at=<i>`.
 `logfollow-run <insts> <phase> <events>`: the full model (`Sys`), for directed runs: insts `1_2,3` (instances separated
@@ -18,13 +18,14 @@ def parseOEv (s : String) : Option OEv :=
   | ["en", b] => (parseB b).map .enter
   | ["op", i] => i.toNat?.map .opened
   | ["ck", b] => (parseB b).map .check
+  | ["ef"] => some .eof
   | ["st"] => some .stop
   | _ => none
 
 def flagName : Flag → String
   | .badOrder => "badOrder" | .unsoundFree => "unsoundFree" | .stopWhileLocked => "stopWhileLocked"
   | .staleOpen => "staleOpen" | .rebuiltDuringFollow => "rebuiltDuringFollow" | .wrongInstance => "wrongInstance"
-  | .createAfterFree => "createAfterFree"
+  | .createAfterFree => "createAfterFree" | .stopWithoutReread => "stopWithoutReread"
 
 def phaseName : Phase → String
   | .idle => "idle" | .lockedNoLog => "lockedNoLog" | .building => "building"
